@@ -1,3 +1,6 @@
+#[cfg(cosmian_cover_crypt_verif)]
+use crate::verif_sync::{Mutex, MutexGuard};
+#[cfg(not(cosmian_cover_crypt_verif))]
 use std::sync::{Mutex, MutexGuard};
 
 use cosmian_crypto_core::{reexport::rand_core::SeedableRng, CsRng, Secret, SymmetricKey};
